@@ -51,12 +51,17 @@ def scalar_set(rng, n, kind, c=8):
             v |= rng.randrange(1 << max(lo, 1)) if rng.random() < 0.5 else 0
             out.append(v % R)
         return out
+    if kind == "mont-sparse":
+        # small / sparse INTERNAL (Montgomery) representation, and one-word values with high bits set
+        rinv = pow(1 << 256, -1, R)
+        pats = [1, 255, 1 << 63, (1 << 64) - 1, 0xf800000000000000, 0xfff8000000000000, rng.randrange(1 << 64)]
+        return [rng.choice([rng.choice(pats) * rinv % R, rng.choice(pats), (rng.choice(pats) << 64) * rinv % R]) for _ in range(n)]
     if kind == "mixed":
         return [rng.choice([0, 1, R - 1, rng.randrange(R), rng.randrange(1 << 10), 1 << rng.randrange(253)]) for _ in range(n)]
     raise ValueError(kind)
 
 
-KINDS = ["random", "small", "10pct-small", "zeros", "ones", "max", "half-digits", "carry-chain", "mixed"]
+KINDS = ["random", "small", "10pct-small", "zeros", "ones", "max", "half-digits", "carry-chain", "mixed", "mont-sparse", "mont-sparse"]
 
 
 def point_set(rng, n, pool):
